@@ -237,7 +237,7 @@ class Special(object):
 def failure_of(r):
     if r.oracle:
         return 'oracle'
-    if r.why_model:
+    if r.why_model or r.why_spec:
         return 'model'
     return None
 
@@ -275,6 +275,8 @@ def run_chunk(args):
         out['cases'].append((obj, nontriv))
         out['traces'] += 1
         count(kind)
+        if r.spec is not None and 'bits' in r.spec and not r.why_spec:
+            count('spec:section4-identical')
         count('compressed' if c.comp else 'uncompressed')
         count('edition-%d' % c.edition)
         count('subsets-%d' % c.n)
@@ -321,11 +323,14 @@ def describe(r):
         sig = {'stage': 'oracle', 'kind': kind, 'compressed': bool(c.comp)}
         what = 'oracle (%s): %s; ids %s, %d subset(s), %s' % (kind, text, c.ids[:30], c.n, 'compressed' if c.comp else 'uncompressed')
         return what, rep, sig, False
-    rep['why'] = r.why_model
-    stage = r.why_model.split(' differ')[0].split(':')[0][:40]
-    sig = {'stage': 'model', 'what': stage, 'compressed': bool(c.comp)}
-    what = ('implementation and model encoder disagree but the bytes satisfy the oracle (another legal encoding): %s; ids %s'
-            % (r.why_model, c.ids[:30]))
+    why = r.why_model or r.why_spec
+    rep['why'] = why
+    if r.why_spec:
+        rep['why_spec'] = r.why_spec
+    stage = why.split(' differ')[0].split(':')[0][:40]
+    sig = {'stage': 'model' if r.why_model else 'spec', 'what': stage, 'compressed': bool(c.comp)}
+    what = ('implementation and %s disagree but the bytes satisfy the oracle (another legal encoding): %s; ids %s'
+            % ('model encoder' if r.why_model else 'specification bits', why, c.ids[:30]))
     return what, rep, sig, True
 
 
@@ -364,7 +369,7 @@ def replay(ctx, path):
                 rep['values'], rep.get('expect'), kind=rep.get('kind', 'generated'))
     r = E.evaluate_encode(drv, treq, [c])[0]
     fail = failure_of(r)
-    print('replay:', (r.oracle[1] if r.oracle else r.why_model) if fail else 'implementation, model and oracle agree')
+    print('replay:', (r.oracle[1] if r.oracle else (r.why_model or r.why_spec)) if fail else 'implementation, model, specification and oracle agree')
     if fail:
         what, rep2, sig, nfi = describe(r)
         ctx.violation(what, rep2, signature=sig, no_failing_input=nfi)
